@@ -118,6 +118,10 @@ JumpProgs ==
        P("ld-addr64", Obs(CastE(T(TRUE, 32), Load(TRUE, 32, Rss))), <<"load", "addr64">>),
        P("st-addr64", << Store(FALSE, 16, Rss, Rt) >>, <<"store", "addr64">>),
        P("ld-addr8", << Decl(U8, "a8", Rs) >> \o Obs(CastE(T(FALSE, 32), Load(FALSE, 8, Var("a8")))), <<"load", "addr8">>),
+       P("ld-mulconst", Obs(CastE(T(TRUE, 32), Load(TRUE, 32, Bin("*", NumN(4), NumN(2))))), <<"load", "const">>),
+       P("jmp-mulconst", << Jump(Bin("*", NumN(4), NumN(2))), Empty >>, <<"jump", "const">>),
+       P("jmp-divconst", << Jump(Bin("/", NumN(64), NumN(4))), Empty >>, <<"jump", "const">>),
+       P("st-shlconst", << Store(FALSE, 32, Bin("<<", NumN(1), NumN(4)), Rt) >>, <<"store", "const">>),
        P("st-addr-fold", << Store(FALSE, 32, Bin("+", NumN(16), NumN(4)), Rt) >>, <<"store", "const">>) >>
 
 Programs == IsaProgs \o ExplicitProgs \o ExplicitPairProgs \o AliasProgs \o ImmProgs \o MemProgs \o JumpProgs
